@@ -318,6 +318,22 @@ def run(ctx):
     from .c15 import check_descriptor_equality
     check_descriptor_equality(ctx, "R20.7")
 
+    # ------------------------------------------------------------------ R20.8 column names are cleaned before they are judged
+    ctx.rule("R20.8", "normalize_fieldname (applied by the CSV reader to every header cell) replaces the characters a field name cannot contain BEFORE it decides "
+                      "whether the name needs the `x_` prefix: a header that starts with one of those characters becomes `_name` only after the test, is then taken for a "
+                      "reserved field by the reader and the whole column disappears")
+    nf8 = ctx.anchor_func("flow.record.base.normalize_fieldname")
+    cfg8 = CFG(nf8)
+    subs8 = [c for c in calls_in(nf8) if (call_name(c) or "").endswith(("re.sub", ".sub", ".replace", ".translate"))]
+    tests8 = [c for c in calls_in(nf8) if isinstance(c.func, ast.Attribute) and c.func.attr in ("startswith", "isdecimal", "isdigit")]
+    ctx.floor("R20.8", "character substitutions in normalize_fieldname", len(subs8), 1)
+    ctx.floor("R20.8", "prefix tests in normalize_fieldname", len(tests8), 1)
+    for t8 in tests8:
+        tn = cfg8.header_node_for_expr(t8) or cfg8.node_of(t8)
+        ok8 = any(cfg8.dominates(cfg8.node_of(s8).id, tn.id) and cfg8.node_of(s8).id != tn.id for s8 in subs8)
+        ctx.check(ok8, "R20.8", f"normalize_fieldname:{norm(t8)[:30]}", f"`{norm(t8)}` is evaluated on a path on which the character substitution has not run yet", t8,
+                  "substitution dominates the prefix tests", key="R20.8:normalize_fieldname:test-before-substitution")
+
 
 
 def _record_derived(recv, fn, prog=None, module=None) -> bool:
